@@ -878,3 +878,22 @@ pub proof fn lemma_wds_markers(pools0: Map<PoolKey, PoolState>, c0: IMap<CoinID,
 {
     assert forall|h: TxHash| c0.contains_key(#[trigger] spec_marker(h)) implies c1.contains_key(spec_marker(h)) && c1[spec_marker(h)] == c0[spec_marker(h)] by { lemma_marker_not_req(reqs, h); }
 }
+// ---- ages of the coins a settlement phase writes (chain invariant coin_heights_ok): every coin a phase leaves behind is either
+// untouched or was written at this block's height
+pub proof fn lemma_swaps_young(pools0: Map<PoolKey, PoolState>, c0: IMap<CoinID, CoinDataHeight>, height: BlockHeight, reqs: Seq<Transaction>, done: ISet<PoolKey>, pools1: Map<PoolKey, PoolState>, c1: IMap<CoinID, CoinDataHeight>)
+    requires swaps_done(pools0, c0, height, reqs, done, pools1, c1) ensures young(c0, c1, height)
+{
+    assert forall|id: CoinID| #[trigger] c1.contains_key(id) implies (c0.contains_key(id) && c1[id] == c0[id]) || c1[id].height == height by {
+        if exists|j: int| 0 <= j < reqs.len() && id == cid(#[trigger] reqs[j], 0) { let j = choose|j: int| 0 <= j < reqs.len() && id == cid(#[trigger] reqs[j], 0); let tx = reqs[j]; }
+    }
+}
+pub proof fn lemma_wds_young(pools0: Map<PoolKey, PoolState>, c0: IMap<CoinID, CoinDataHeight>, height: BlockHeight, reqs: Seq<Transaction>, done: ISet<PoolKey>, wl: spec_fn(PoolKey) -> int, wr: spec_fn(PoolKey) -> int, pools1: Map<PoolKey, PoolState>, c1: IMap<CoinID, CoinDataHeight>)
+    requires wds_done(pools0, c0, height, reqs, done, wl, wr, pools1, c1), forall|j: int| 0 <= j < reqs.len() ==> done.contains(swap_key(#[trigger] reqs[j]))
+    ensures young(c0, c1, height)
+{
+    assert forall|id: CoinID| #[trigger] c1.contains_key(id) implies (c0.contains_key(id) && c1[id] == c0[id]) || c1[id].height == height by {
+        if exists|j: int| 0 <= j < reqs.len() && (id == cid(#[trigger] reqs[j], 0) || id == cid(reqs[j], 1)) {
+            let j = choose|j: int| 0 <= j < reqs.len() && (id == cid(#[trigger] reqs[j], 0) || id == cid(reqs[j], 1)); let tx = reqs[j]; assert(done.contains(swap_key(tx)));
+        } else if !c0.contains_key(id) { assert(wd_new(reqs, done, id)); let j = choose|j: int| 0 <= j < reqs.len() && done.contains(swap_key(#[trigger] reqs[j])) && id == cid(reqs[j], 1); assert(false); }
+    }
+}
